@@ -1,6 +1,6 @@
 (* C10 - directory operations keep the namespace exact: the proved part is what ext2fs_link and
    ext2fs_unlink do to the records of one directory block *)
-From E2V Require Import DirBlock.DirBlock DirBlock.DirBlockProofs.
+From E2V Require Import DirBlock.DirBlock DirBlock.DirBlockProofs DirBlock.DxSearch DirBlock.DxSearchProofs.
 Local Open Scope N_scope.
 
 (* link: the records still tile the block exactly, the live entries are the old ones plus exactly the
@@ -28,3 +28,20 @@ Example link_example :
   Some [mkEnt 2 12 [46]; mkEnt 2 12 [46; 46]; mkEnt 11 12 [108; 111; 115; 116]; mkEnt 77 48 [120; 121]; mkEnt 12 928 [97]] /\
   unlink_block [97] ex_block = Some [mkEnt 2 12 [46]; mkEnt 2 12 [46; 46]; mkEnt 11 20 [108; 111; 115; 116]; mkEnt 0 968 []].
 Proof. vm_compute. split; reflexivity. Qed.
+
+(* htree: the binary search of one index node (dx_search_entry) returns the entry that covers the hash - every
+   entry up to it starts at or below the hash and every later one above it - for every sorted node and every hash;
+   a name is therefore put into (and looked for in) the one leaf whose hash range contains it *)
+Theorem htree_search_covers : forall e h, (1 <= length e)%nat -> sorted_from1 e ->
+  let a := dx_search e h in
+  (a < length e)%nat /\
+  (forall i, (1 <= i)%nat -> (i <= a)%nat -> nth i e 0 <= h) /\
+  (forall i, (a < i)%nat -> (i < length e)%nat -> h < nth i e 0).
+Proof. exact dx_search_covers. Qed.
+Print Assumptions htree_search_covers.
+
+(* a hash equal to a leaf's lower bound belongs to that leaf, not to the one before it *)
+Example htree_boundary : dx_search [0; 100; 200; 300] 200 = 2%nat /\ dx_search [0; 100; 200; 300] 199 = 1%nat /\
+  dx_search [0; 100; 200; 300] 5 = 0%nat /\ dx_search [0] 77 = 0%nat /\
+  dx_leaf [(0, 1); (100, 7); (200, 9)] [(7, [(0, 3); (150, 4)])] 160 = 4.
+Proof. vm_compute. repeat split; reflexivity. Qed.
